@@ -9,7 +9,7 @@ in z3 for the obligations and as an independent numpy BFS for the float64/bool r
 
 Obligation classes (each with its own key):
   * kept  =>  material and connected to the bottom layer                    (``...:keeps_unconnected``)
-  * material connected within max(shape) face steps  =>  kept               (``...:drops_connected_within_n_steps``)
+  * material connected within 1.5*max(shape) face steps  =>  kept           (``...:drops_connected_within_n_steps``)
   * material connected at all  =>  kept                                     (``...:too_few_sweeps`` / ``...:one_layer``)
   * connect_holes_and_structures: no floating material / no enclosed background in the output
   * a legal design shape on which the real code raises                      (``...:raises:<shape class>``)
@@ -358,6 +358,14 @@ def _cut_lemmas(c, cuts, C, assume, budget_ms=20000):
     return lem
 
 
+def _near_depth(shape):
+    """depth of the "connected within d face steps => kept" obligation class.  It is a sub-claim of the completeness
+    obligation, split off so that a regression of the dilation itself shows up under its own key and not under the
+    iteration-count key: d = 1.5 * max(shape) is what max(shape) sweeps of three plane-wise dilations reach on any path
+    (every two consecutive sweeps advance at least three steps)."""
+    return (3 * max(shape)) // 2
+
+
 def _chunks(shape):
     """cells grouped into obligations: one per cell on small designs, ~16 groups on large ones."""
     cells = list(np.ndindex(*shape))
@@ -421,7 +429,7 @@ def _flood_case(c, case, what, fn, seed, invert):
     for idx in np.ndindex(*shape):
         mask[idx] = z3.Not(m[idx]) if invert else m[idx]
     hist = reach_sym(mask, seed, N - 1)
-    full, near = hist[-1], hist[min(n_sweeps, N - 1)]
+    full, near = hist[-1], hist[min(_near_depth(shape), N - 1)]
     cls = _shape_class(shape)
 
     def replay_for(k):
@@ -557,7 +565,7 @@ def _module_remove(c, case):
     p0 = np.where(d0, 1 - bg, bg).astype(np.int32)
     c.validate(jx.to_numeric(tr(jx.lift(p0))).astype(np.float64), np.asarray(fn(jnp.asarray(p0))).astype(np.float64), "RemoveFloatingMaterial")
     hist = reach_sym(m, _seed_bottom(shape), N - 1)
-    full, near = hist[-1], hist[min(max(shape), N - 1)]
+    full, near = hist[-1], hist[min(_near_depth(shape), N - 1)]
     out = jx.lift(out)
 
     def replay(model):
